@@ -751,7 +751,7 @@ impl Prop for C02 {
 
     fn plan(&self, tier: Tier) -> Plan {
         Plan::new(match tier {
-            Tier::Quick => 4000,
+            Tier::Quick => 10000,
             Tier::Thorough => 60_000,
         })
     }
